@@ -58,8 +58,10 @@ FIELD_INFO = {
     "w":     {"att": "w", "name": "w", "keys": ["w"], "type": "posint"},
     "w2":    {"att": "w2", "name": "w2", "keys": ["w2"], "type": "int"},
     "hsum":  {"att": "hsum", "name": "hsum", "keys": ["hsum"], "type": "int"},
+    "num":   {"att": "num", "name": "num", "keys": ["num"], "type": "anynum"},
+    "nkind": {"att": "nkind", "name": "nkind", "keys": ["nkind"], "type": "str"},
 }
-ORDER = ["req", "opt", "its", "pos", "fin", "ali", "hid", "lf", "mreq", "exo", "total", "w"]
+ORDER = ["req", "opt", "its", "pos", "fin", "ali", "hid", "lf", "mreq", "exo", "total", "w", "num"]
 
 
 def source(plan):
@@ -110,6 +112,11 @@ def source(plan):
         # a property that depends on a field which is kept out of the key view
         L += ["    @property", "    @Field(dependencies=['hid'])", "    def hsum(self) -> int:",
               "        return self.hid + 100"]
+    if "num" in fs:
+        # values that compare equal need not be the same value (1 == True == 1.0): the dependant tells them apart
+        L.insert(1, "from typing import Any")
+        L += ["    num: Any = 1", "    @property", "    @Field(dependencies=['num'])", "    def nkind(self) -> str:",
+              "        return type(self.num).__name__"]
     if "w" in fs:
         L += ["    _w = 0", "    @property", "    def w(self) -> int:", "        return self._w",
               "    @w.setter", "    def w(self, v: int = Field(ge=0, required=False)):",
@@ -136,6 +143,8 @@ def _value_for(rng, kind, pool):
         return rng.choice(INT_VALUES)
     if t == "str":
         return rng.choice(STR_VALUES)
+    if t == "anynum":
+        return rng.choice([1, True, 1.0, 0, False, 0.0, 2, "1"])
     if t == "leaf":
         r = rng.random()
         if r < 0.8:
@@ -209,7 +218,7 @@ def generate(rng, tier):
         init["mreq"] = rng.choice([6, "7"])
     plan["init"] = init
     init_pids = list(pool.used)
-    targets = [k for k in fs] + (["w2"] if "w" in fs else [])
+    targets = [k for k in fs] + (["w2"] if "w" in fs else []) + (["nkind"] if "num" in fs and rng.random() < 0.3 else [])
     nops = rng.choice([6, 8, 10, 14, 20]) if tier == "quick" else rng.choice([8, 12, 16, 24])
     ops = []
     schema_ops = ["setattr", "setattr", "delattr", "setitem", "setitem", "delitem", "update_m", "update_kw", "pop", "pop_d",
@@ -325,7 +334,7 @@ def read_attr(inst, att):
     except AttributeError:
         return _MISSING
     except Exception:  # noqa  a property body computing over already-broken data; the broken field itself is reported
-        if att in ("total", "w", "w2", "hsum"):
+        if att in ("total", "w", "w2", "hsum", "nkind"):
             return _MISSING
         raise
 
@@ -339,7 +348,7 @@ class View:
         self.extra = {}
         is_schema = plan["base"] == "schema"
         names = {}
-        all_kinds = list(plan["fields"]) + (["w2"] if "w" in plan["fields"] else []) + (["hsum"] if plan.get("hsum") else [])
+        all_kinds = list(plan["fields"]) + (["w2"] if "w" in plan["fields"] else []) + (["hsum"] if plan.get("hsum") else []) + (["nkind"] if "num" in plan["fields"] else [])
         for k in all_kinds:
             names[FIELD_INFO[k]["name"]] = k
         if is_schema:
@@ -369,7 +378,7 @@ def check_invariants(plan, inst, initial, res, opname, field, current=True):
     v = View(plan, inst)
     fs = plan["fields"]
     is_schema = plan["base"] == "schema"
-    props = {"total", "w", "w2", "hsum"}
+    props = {"total", "w", "w2", "hsum", "nkind"}
     # I1 conformance of every present field, in both views
     for k, val in v.keys.items():
         if not conforms(k, val):
@@ -392,7 +401,7 @@ def check_invariants(plan, inst, initial, res, opname, field, current=True):
             out.append(("I3", "class", "instance of an immutable class changed"))
     # I4 key view and attribute view agree
     if is_schema:
-        for k in list(fs) + (["w2"] if "w" in fs else []) + (["hsum"] if plan.get("hsum") else []):
+        for k in list(fs) + (["w2"] if "w" in fs else []) + (["hsum"] if plan.get("hsum") else []) + (["nkind"] if "num" in fs else []):
             if k == "hid":
                 if "hid" in v.keys:
                     out.append(("I4", k, "no_output field present in the key view"))
@@ -419,6 +428,8 @@ def check_invariants(plan, inst, initial, res, opname, field, current=True):
     if plan.get("hsum") and is_schema and "hid" in v.attrs and conforms("hid", v.attrs["hid"]):
         if "hsum" in v.keys and v.keys["hsum"] != v.attrs["hid"] + 100:
             out.append(("I5", "hsum", f"hsum={v.keys['hsum']!r} but hid={v.attrs['hid']!r}"))
+    if "num" in fs and is_schema and "num" in v.keys and "nkind" in v.keys and v.keys["nkind"] != type(v.keys["num"]).__name__:
+        out.append(("I5", "nkind", f"nkind={v.keys['nkind']!r} but num={v.keys['num']!r}"))
     if "w" in fs and is_schema:
         if "w" in v.keys and "w2" in v.keys and conforms("w", v.keys["w"]) and v.keys["w2"] != v.keys["w"] * 2:
             out.append(("I5", "w2", f"w2={v.keys['w2']!r} but w={v.keys['w']!r}"))
@@ -620,6 +631,8 @@ def shrink(plan):
         if k in ("req",) or k in used or k == "w2":
             continue
         if k == "pos" and "total" in plan["fields"]:
+            continue
+        if k == "num" and "nkind" in used:
             continue
         p = copy.deepcopy(plan)
         p["fields"].remove(k)
